@@ -1044,6 +1044,19 @@ def origins_of_place(f, l, proj, extra_pass=(), _seen=None):
     return res
 
 
+def constituent_origins(prog, f, op, depth=4):
+    """deep_origins that also descends into the operands of aggregates (Some(x), tuples, struct literals):
+    what values is this operand built from?"""
+    out = []
+    for (g, o) in deep_origins(prog, f, op):
+        if o.kind == "agg" and isinstance(o.extra, dict) and o.extra.get("ops") and depth > 0 and not o.extra.get("closure"):
+            for sub in o.extra["ops"]:
+                out.extend(constituent_origins(prog, g, sub, depth - 1))
+        else:
+            out.append((g, o))
+    return out
+
+
 def returned_payload_origins(f):
     """Origins of the value a Result/Option-returning body returns in its Ok/Some case."""
     out = []
@@ -1739,3 +1752,314 @@ class LockFacts:
         for t in self.prog.may_targets(c):
             out |= ma.get(t, set())
         return out
+
+
+# --------------------------------------------------------------------------------------
+# structured (HIR) path conditions
+
+class HirSite:
+    """A node of interest together with the conditions guarding it and the statements that precede it."""
+    __slots__ = ("node", "guards", "before", "loops")
+
+    def __init__(self, node, guards, before, loops):
+        self.node = node
+        self.guards = guards    # list of (kind, text, polarity/pattern, node)
+        self.before = before    # list of nodes executed before on the structured path (outermost first)
+        self.loops = loops      # number of enclosing loops
+
+    def guard_texts(self):
+        out = []
+        for (k, text, pol, _n) in self.guards:
+            if k == "if":
+                out.append(("" if pol else "!") + text)
+            elif k == "match":
+                out.append("%s ~ %s" % (text, pol))
+            elif k == "iflet":
+                out.append(("" if pol else "!") + "let %s" % text)
+            else:
+                out.append("%s:%s" % (k, text))
+        return out
+
+
+def split_and(node):
+    """Conjuncts of a condition expression (a && b && c)."""
+    if isinstance(node, dict) and node.get("k") == "bin" and node.get("op") == "&&":
+        return split_and(node["l"]) + split_and(node["r"])
+    return [node]
+
+
+def hir_sites(root, pred, into_closures=True):
+    """Yield HirSite for every node satisfying pred, with structural guards."""
+    out = []
+
+    def walk(n, guards, before, loops):
+        if isinstance(n, list):
+            for x in n:
+                walk(x, guards, before, loops)
+            return
+        if not isinstance(n, dict):
+            return
+        if pred(n):
+            out.append(HirSite(n, list(guards), list(before), loops))
+        k = n.get("k")
+        if k == "block":
+            seq = list(before)
+            for st in n.get("s", []):
+                walk(st, guards, seq, loops)
+                seq = seq + [st]
+            if "e" in n:
+                walk(n["e"], guards, seq, loops)
+        elif k == "blockx":
+            walk(n["b"], guards, before, loops)
+        elif k == "if":
+            c = n["c"]
+            conj = split_and(c)
+            walk(c, guards, before, loops)
+            g_then = list(guards)
+            for cj in conj:
+                if cj.get("k") == "letx":
+                    g_then.append(("iflet", "%s = %s" % (pat_str(cj["pat"]), hir_expr_str(cj["init"])), True, cj))
+                else:
+                    g_then.append(("if", hir_expr_str(cj), True, cj))
+            walk(n["t"], g_then, before, loops)
+            if "e" in n:
+                if len(conj) == 1:
+                    cj = conj[0]
+                    if cj.get("k") == "letx":
+                        g_else = guards + [("iflet", "%s = %s" % (pat_str(cj["pat"]), hir_expr_str(cj["init"])), False, cj)]
+                    else:
+                        g_else = guards + [("if", hir_expr_str(cj), False, cj)]
+                else:
+                    g_else = guards + [("if", hir_expr_str(c), False, c)]
+                walk(n["e"], g_else, before, loops)
+        elif k == "match":
+            walk(n["e"], guards, before, loops)
+            for arm in n["arms"]:
+                g = guards + [("match", hir_expr_str(n["e"]), pat_str(arm["pat"]), arm)]
+                if "g" in arm:
+                    g = g + [("if", hir_expr_str(arm["g"]), True, arm["g"])]
+                walk(arm["b"], g, before, loops)
+        elif k == "loop":
+            walk(n["b"], guards, before, loops + 1)
+        elif k == "for":
+            walk(n["iter"], guards, before, loops)
+            walk(n["b"], guards + [("for", pat_str(n["pat"]), hir_expr_str(n["iter"]), n)], before, loops + 1)
+        elif k == "let":
+            if "init" in n:
+                walk(n["init"], guards, before, loops)
+            if "else" in n:
+                walk(n["else"], guards + [("iflet", "%s = %s" % (pat_str(n["pat"]), hir_expr_str(n.get("init"))), False, n)],
+                     before, loops)
+        elif k == "closure":
+            if into_closures:
+                walk(n["b"], guards + [("closure", n.get("def", ""), True, n)], before, loops)
+        else:
+            for kk, v in n.items():
+                if kk in ("pat", "params"):
+                    continue
+                if isinstance(v, (dict, list)):
+                    walk(v, guards, before, loops)
+    walk(root, [], [], 0)
+    return out
+
+
+# --------------------------------------------------------------------------------------
+# (G) codec skeletons and (A) argument-name agreement (typed HIR)
+
+IO_WIDTH = [
+    (re.compile(r"(write|read)_u8$"), "u8"), (re.compile(r"(write|read)_u16$"), "u16"),
+    (re.compile(r"(write|read)_u32$"), "u32"), (re.compile(r"(write|read)_u64$"), "u64"),
+    (re.compile(r"(write|read)_u128$"), "u128"), (re.compile(r"(write|read)_u16_varint$"), "v16"),
+    (re.compile(r"(write|read)_u32_varint$"), "v32"), (re.compile(r"(write|read)_u64_varint$"), "v64"),
+    (re.compile(r"^write_all$|^read_exact$|^from_reader$|^seek_relative$"), "bytes"),
+]
+HINT_SKIP_METHODS = ("clone", "into", "as_ref", "borrow", "to_owned", "unwrap", "expect", "into_u128", "to_le_bytes",
+                     "as_bytes", "deref", "copied", "cloned", "get")
+
+
+def io_hint(node):
+    """Terminal identifier of a written expression / the name a read value is bound to."""
+    while isinstance(node, dict):
+        k = node.get("k")
+        if k == "var":
+            return node["n"]
+        if k == "field":
+            return node["n"]
+        if k in ("ref", "un", "cast", "try"):
+            node = node.get("e")
+            continue
+        if k == "mcall":
+            if node.get("m") in HINT_SKIP_METHODS:
+                node = node.get("r")
+                continue
+            return node.get("m")
+        if k == "call":
+            p = node.get("p") or ""
+            tail = p.split("::")[-1]
+            if tail in ("from", "from_raw", "into") and node["a"]:
+                node = node["a"][0]
+                continue
+            return tail
+        if k == "lit":
+            return "lit:%s" % node.get("v", node.get("s", node.get("bs", "")))
+        if k == "path":
+            return node["p"].split("::")[-1]
+        if k == "index":
+            node = node.get("e")
+            continue
+        return None
+    return None
+
+
+def codec_skeleton(body, side):
+    """Ordered I/O skeleton of an encoder ('w') or decoder ('r'): tokens (width, hint) with loop / branch markers."""
+    toks = []
+
+    def width_of(m):
+        for rx, w in IO_WIDTH:
+            if rx.search(m):
+                return w
+        return None
+
+    def walk(n, bind=None):
+        if isinstance(n, list):
+            for x in n:
+                walk(x, bind)
+            return
+        if not isinstance(n, dict):
+            return
+        k = n.get("k")
+        if k == "let":
+            name = n["pat"]["n"] if n["pat"].get("k") == "bind" else None
+            if "init" in n:
+                walk(n["init"], name)
+            if "else" in n:
+                walk(n["else"])
+            return
+        if k in ("for", "loop"):
+            toks.append(("loop{", None))
+            if k == "for":
+                walk(n["iter"])
+            walk(n["b"])
+            toks.append(("}", None))
+            return
+        if k == "closure":
+            return
+        if k == "macro":
+            return
+        if k in ("mcall", "call"):
+            m = n.get("m") or (n.get("p") or "").split("::")[-1]
+            w = width_of(m)
+            is_w = m.startswith("write")
+            is_r = m.startswith("read") or m in ("from_reader", "seek_relative")
+            if w == "bytes" and k == "call" and not (n.get("p") or "").endswith("::from_reader"):
+                w = None   # a free function named read_exact (pread helper), not a step of the stream codec
+            if w and ((side == "w" and is_w) or (side == "r" and is_r)):
+                # evaluate receiver/args first (nested reads in args are rare)
+                if side == "w":
+                    arg = n["a"][-1] if n["a"] else None
+                    toks.append((w, io_hint(arg)))
+                else:
+                    toks.append((w, bind))
+                return
+            # archive sections: writer.start("name") / toc.section(b"name")
+            if (side == "w" and m == "start") or (side == "r" and m == "section"):
+                lit = n["a"][0] if n.get("a") else None
+                while isinstance(lit, dict) and lit.get("k") in ("ref", "un"):
+                    lit = lit.get("e")
+                if isinstance(lit, dict) and lit.get("k") == "lit":
+                    toks.append(("section", lit.get("s", lit.get("bs"))))
+            # nested codec calls
+            if m in ("encode_into", "decode_from", "encode_into_vec") and ((side == "w") == m.startswith("encode")):
+                toks.append(("codec:" + (n.get("p") or m).replace("encode_into", "X").replace("decode_from", "X"), None))
+            if k == "mcall":
+                walk(n["r"], bind)
+            walk(n.get("a", []), None)
+            if "f" in n:
+                walk(n["f"], None)
+            return
+        if k == "if":
+            walk(n["c"])
+            toks.append(("if{", None))
+            walk(n["t"])
+            if "e" in n:
+                toks.append(("}else{", None))
+                walk(n["e"])
+            toks.append(("}", None))
+            return
+        for kk, v in n.items():
+            if kk in ("pat", "params"):
+                continue
+            if isinstance(v, (dict, list)):
+                walk(v, bind if kk in ("e", "r", "init", "b") else None)
+    walk(body)
+    return toks
+
+
+def compare_skeletons(enc, dec, vocab=(), ignore_branches=True):
+    """Returns (ok, message).  Widths and loop structure must agree; hints must agree where both sides name a
+    member of `vocab` (the confusable same-struct field names)."""
+    def strip(t):
+        return [x for x in t if not (ignore_branches and x[0] in ("if{", "}else{"))]
+
+    def norm(t):
+        out = []
+        depth_if = 0
+        for x in t:
+            if x[0] == "if{":
+                depth_if += 1
+                continue
+            if x[0] == "}else{":
+                continue
+            out.append(x)
+        return out
+    # remove if-markers and their matching '}' conservatively: rebuild with a stack
+    def clean(t):
+        out = []
+        stack = []
+        for x in t:
+            if x[0] in ("loop{", "if{"):
+                stack.append(x[0])
+                if x[0] == "loop{":
+                    out.append(x)
+            elif x[0] == "}else{":
+                continue
+            elif x[0] == "}":
+                if stack and stack.pop() == "loop{":
+                    out.append(x)
+            else:
+                out.append(x)
+        return out
+    e, d = clean(enc), clean(dec)
+    ew = [x[0] for x in e]
+    dw = [x[0] for x in d]
+    if ew != dw:
+        return False, "I/O shapes differ: writer %s vs reader %s" % (ew, dw)
+    for (w, he), (_w, hd) in zip(e, d):
+        if he in vocab and hd in vocab and he != hd:
+            return False, "field order differs: writer puts `%s` where the reader takes `%s` (%s)" % (he, hd, w)
+    return True, "%d I/O steps agree" % len([x for x in ew if x not in ("loop{", "}")])
+
+
+def split_sections(toks):
+    """dict section name -> tokens (tokens before the first section marker go under '')."""
+    out = {"": []}
+    cur = ""
+    for t in toks:
+        if t[0] == "section":
+            cur = t[1]
+            out.setdefault(cur, [])
+        else:
+            out[cur].append(t)
+    return out
+
+
+def fn_param_names(prog, path):
+    """Parameter binding names of a local function (from HIR), including `self`."""
+    h = prog.hir.get(path)
+    if h is None:
+        return None
+    out = []
+    for p in h["params"]:
+        out.append(p["n"] if p.get("k") == "bind" else None)
+    return out
